@@ -1745,7 +1745,7 @@ class Kconfig(object):
         elif sym.orig_type == STRING:
             return f'#define {self.config_prefix}{sym.name} "{_escape(val)}"\n'
         elif sym.orig_type in _INT_HEX_FLOAT:
-            if sym.orig_type == HEX and not val.startswith(("0x", "0X")):
+            if sym.orig_type == HEX and val and not val.startswith(("0x", "0X")):
                 val = "0x" + val
             elif sym.orig_type == INT and _is_base_n(val, 10):
                 # A decimal value keeps the form the user typed ("010"); in C a
